@@ -2,24 +2,24 @@
 import json, os
 from vlib import *
 
-RULE = ("api: names (fixed list incl. 'My Image', 'A/B', 'A#20', empty, non-ASCII; every ASCII char inside a name; seeded random regular and "
-        "irregular names) through Page::add_image+draw_image and Page::add_form_xobject, document written with Document::to_bytes and re-opened "
-        "with PdfReader/PdfDocument; outcome = reads back with the same XObject key (and Do operand) / rejected by the API / broken. "
-        "pages: 2-4 page documents reusing the SAME regular name on several pages for DIFFERENT resources (images of equal size with other pixels, "
+RULE = ("api: names (fixed list incl. 'My Image', 'A/B', 'A#20', '#', '()<>[]{}/%#', trailing/leading space, empty, controls, non-ASCII; every ASCII char "
+        "inside a name; seeded random regular and irregular names) through Page::add_image+draw_image and Page::add_form_xobject, document written "
+        "with Document::to_bytes and re-opened with PdfReader/PdfDocument; outcome = reads back with the SAME String as XObject key (and Do operand) "
+        "/ rejected by the API / broken. "
+        "pages: 2-4 page documents reusing the SAME name (regular, or for images any ASCII name incl. white space/delimiters/'#') on several pages for DIFFERENT resources (images of equal size with other pixels, "
         "other sizes, form XObjects, image/form alternating, two names exchanged): per page the decoded stream the name resolves to must be the one "
         "registered on that page (judged in Coq). non-trivial = name longer than one byte (api), a name shared by >= 2 pages (pages); distinct by case text")
 
-BAD = set(b"\t\n\x0c\r /<>[](){}%#")
-
-
 def classify(case, code):
-    """known class: an entry point without the validation gate (images) given a name containing white space,
-    a delimiter or '#', and the model predicts exactly the observed breakage (bit 1 clear)"""
+    """known class (what is left of the name finding after fix_name_escape): a name with a byte >= 0x80 —
+    the READER returns its resource-dictionary key as one char per byte, so it does not equal the name —
+    and the model predicts exactly the observed outcome (bit 1 clear).  Names made of ASCII only (white
+    space, delimiters, '#', controls) are never classified: they must read back."""
     if not case or code < 0 or (code & 1) or "pages" in case:
         return None
     name = bytes.fromhex(case.get("name", ""))
-    if case.get("entry") == "image" and any(b in BAD for b in name):
-        return "C30-name-raw"
+    if case.get("entry") in ("image", "form") and any(b >= 0x80 for b in name):
+        return "C30-name-nonascii"
     return None
 
 
@@ -29,6 +29,6 @@ def run(r):
     if os.path.exists(p):
         for f in json.load(open(p)):
             r.known.setdefault(f["id"], f)
-    r.assumptions = ["the content-stream tokenizer (parser/content.rs) is observed, not modelled, apart from its delimiter set",
+    r.assumptions = ["the content-stream tokenizer's name reader is C21's model (Tok.scan_name/decode_name/utf8_valid), tied to the code by C21's correspondence",
                      "entry points exercised: images (ungated) and form XObjects (gated); fonts, ExtGState, patterns, shadings, colour spaces and form fields are not exercised by this harness"]
-    return standard(r, "c30", ["theories/C30/Proofs.vo"], ["theories/C30/Model.vo", "theories/C09/Model.vo"], ["api", "pages"], classify=classify)
+    return standard(r, "c30", ["theories/C30/Proofs.vo"], ["theories/C30/Model.vo", "theories/C09/Model.vo", "theories/C21/Tok.vo"], ["api", "pages"], classify=classify)
